@@ -20,6 +20,7 @@ import LinVerif.Lemmas.C16Route
 import LinVerif.Lemmas.C16Escape
 import LinVerif.Lemmas.C16Influx
 import LinVerif.Lemmas.C16FlatAgree
+import LinVerif.Lemmas.C16Ident
 import LinVerif.Generated.C16
 
 namespace LinVerif.Props.C16
@@ -1064,6 +1065,162 @@ example :
     (FlatRow.decodeTo ⟨cfg0, 256⟩ (insertionSort (less false)) (fun s => s.length) dirtyDec row0).2.toOption.isSome = true := by
   decide
 
+/-! ## the stored identity is a function of the stored spelling — in every format -/
+
+section identity
+open LinVerif.C16Ident LinVerif.FlatRow
+
+/-- **proto_identity_of_stored_spelling**: whichever of the SOUND placements of the sanitiser the protobuf
+converter uses (in place in validateMetric; or at both uses of the string), an accepted metric is stored
+under the sanitised name and namespace — neither contains the storage delimiter '|' — and its NameHash is
+the hash of exactly those two stored strings. For every metric, request namespace, hash, sort. -/
+theorem proto_identity_of_stored_spelling (fn fs : NameFlow) (hn : fn.sound = true) (hs : fs.sound = true)
+    (tb : Bool) (sort : List Tag → List Tag) (H : String → Nat) (c : Cfg) (m : PMetric) (s : Stored)
+    (h : convertF fn fs tb sort H c (some m) = .ok s) :
+    s.name = sanitizeName m.name ∧ s.ns = sanitizeName (rawNs c m) ∧
+    s.nameHash = H (s.ns ++ s.name) ∧ '|' ∉ s.name.toList ∧ '|' ∉ s.ns.toList := by
+  simp only [convertF] at h
+  cases hv : validate c (some m) with
+  | error e => rw [hv] at h; cases h
+  | ok v =>
+    rw [hv] at h
+    have e := (Except.ok.inj h).symm
+    subst e
+    have h1 := stored_of_sound fn hn m.name
+    have h2 := stored_of_sound fs hs (rawNs c m)
+    refine ⟨h1, h2, ?_, ?_, ?_⟩
+    · show H (fs.hashed (rawNs c m) ++ fn.hashed m.name) = H (fs.stored (rawNs c m) ++ fn.stored m.name)
+      rw [hashed_of_sound fn hn, hashed_of_sound fs hs]
+    · show '|' ∉ (fn.stored m.name).toList
+      rw [h1]; exact sanitizeName_clean _
+    · show '|' ∉ (fs.stored (rawNs c m)).toList
+      rw [h2]; exact sanitizeName_clean _
+
+/-- the rows any of the format models can store: the protobuf converter (any sound placement of the
+sanitiser, any conforming sort), lindb/common's RowBuilder in ANY state that builds (the flat decoder and the
+influx line parser both end in `RowBuilder.Build`), the flat decoder in any pool state -/
+inductive StoredBy (H : String → Nat) : Stored → Prop
+  | proto (fn fs : NameFlow) (hn : fn.sound = true) (hs : fs.sound = true) (tb : Bool)
+      (sort : List Tag → List Tag) (hsort : SortSpec (less tb) sort) (c : Cfg) (m : PMetric) (s : Stored)
+      (h : convertF fn fs tb sort H c (some m) = .ok s) : StoredBy H s
+  | builder (sortK : List Tag → List Tag) (now : Int) (b : RB) (s : Stored)
+      (h : (b.build sortK H now).2 = .ok s) : StoredBy H s
+  | flat (fc : FCfg) (sortK : List Tag → List Tag) (d : Dec) (r : FRow) (s : Stored)
+      (h : (decodeTo fc sortK H d r).2 = .ok s) : StoredBy H s
+
+/-- **stored_hashes_of_stored_spelling**: in every format model the two stored hashes are functions of what
+is STORED: NameHash = H(stored namespace ++ stored name), tags hash = H(`k=v,…` of the stored tags) — never
+of a spelling that was sent and rewritten on the way. -/
+theorem stored_hashes_of_stored_spelling (H : String → Nat) (s : Stored) (h : StoredBy H s) :
+    s.nameHash = H (s.ns ++ s.name) ∧ s.hash = H (concatKVs s.tags) := by
+  cases h with
+  | proto fn fs hn hs tb sort hsort c m s h =>
+    rw [convertF_sound fn fs hn hs] at h
+    have hc := canonical tb hsort H c m s h
+    exact ⟨hc.2.2.2.2.2.2.2.2.2.2, hc.2.2.2.2.2.2.2.2.2.1⟩
+  | builder sortK now b s h =>
+    unfold RB.build at h
+    split at h
+    · cases h
+    · split at h
+      · cases h
+      · have e := (Except.ok.inj h).symm
+        subst e
+        exact ⟨rfl, rfl⟩
+  | flat fc sortK d r s h =>
+    rw [decodeTo_result] at h
+    obtain ⟨_, rfl⟩ := valid_of_flatSpec fc sortK H r s h
+    exact ⟨rfl, rfl⟩
+
+/-- **identity_function_of_stored_spelling** (cross-format): two rows stored by ANY two formats under the
+same namespace, name and tags carry the same NameHash and the same tags hash, and go to the same shard for
+every shard count and every jump function. -/
+theorem identity_function_of_stored_spelling (H : String → Nat) (s₁ s₂ : Stored)
+    (h₁ : StoredBy H s₁) (h₂ : StoredBy H s₂)
+    (hns : s₁.ns = s₂.ns) (hname : s₁.name = s₂.name) (htags : s₁.tags = s₂.tags) :
+    s₁.nameHash = s₂.nameHash ∧ s₁.hash = s₂.hash ∧
+    ∀ (jump : Nat → Nat → Nat) (n : Nat), jump s₁.hash n = jump s₂.hash n := by
+  obtain ⟨a₁, b₁⟩ := stored_hashes_of_stored_spelling H s₁ h₁
+  obtain ⟨a₂, b₂⟩ := stored_hashes_of_stored_spelling H s₂ h₂
+  have e : s₁.hash = s₂.hash := by rw [b₁, b₂, htags]
+  exact ⟨by rw [a₁, a₂, hns, hname], e, fun jump n => by rw [e]⟩
+
+/-- the metric in its sanitised spelling -/
+def sanitisedSpelling (m : PMetric) : PMetric := { m with name := sanitizeName m.name, ns := sanitizeName m.ns }
+/-- the request with its namespace in the sanitised spelling -/
+def sanitisedCfg (c : Cfg) : Cfg := { c with reqNs := sanitizeName c.reqNs }
+
+/-- **identity_spelling_invariant**: a metric whose name / namespace / request namespace contain '|' and the
+same metric sent in the sanitised spelling are ONE stored metric: accepted together (the name-length rule
+counts bytes, '|' and '_' are one byte each), and stored as the same row — same namespace, name, NameHash,
+tags, tags hash, everything. -/
+theorem identity_spelling_invariant (tb : Bool) (sort : List Tag → List Tag) (H : String → Nat)
+    (c : Cfg) (m : PMetric) :
+    convert tb sort H (sanitisedCfg c) (some (sanitisedSpelling m)) = convert tb sort H c (some m) := by
+  have hreq : (sanitizeName c.reqNs ≠ "") ↔ (c.reqNs ≠ "") := not_congr (sanitizeName_eq_empty _)
+  have hvm : vmetricOf (sanitisedCfg c) (sanitisedSpelling m) = vmetricOf c m := by
+    simp only [vmetricOf, sanitisedCfg, sanitisedSpelling, sanitizeName_idem]
+    by_cases hr : c.reqNs = ""
+    · simp [hr, sanitizeName_idem, (sanitizeName_eq_empty "").2 rfl]
+      rfl
+    · have hr' : sanitizeName c.reqNs ≠ "" := hreq.2 hr
+      simp [hr, hr', sanitizeName_idem]
+      rfl
+  have hvalid : Valid (sanitisedCfg c) (sanitisedSpelling m) ↔ Valid c m := by
+    constructor
+    · intro v
+      exact ⟨fun e => v.name_ne ((sanitizeName_eq_empty _).2 e),
+        by simpa [sanitisedCfg, sanitisedSpelling, blen_sanitizeName] using v.name_len,
+        v.has_field, v.tags_count, v.tags_ok, v.fields_count, v.fields_ok, v.compound_ok⟩
+    · intro v
+      exact ⟨fun e => v.name_ne ((sanitizeName_eq_empty _).1 e),
+        by simpa [sanitisedCfg, sanitisedSpelling, blen_sanitizeName] using v.name_len,
+        v.has_field, v.tags_count, v.tags_ok, v.fields_count, v.fields_ok, v.compound_ok⟩
+  unfold convert
+  by_cases hv : Valid c m
+  · rw [validate_of_valid c m hv, validate_of_valid _ _ (hvalid.2 hv), hvm]
+  · cases h1 : validate c (some m) with
+    | ok v => exact absurd (valid_of_validate c m v h1).1 hv
+    | error e =>
+      cases h2 : validate (sanitisedCfg c) (some (sanitisedSpelling m)) with
+      | ok v => exact absurd (hvalid.1 (valid_of_validate _ _ v h2).1) hv
+      | error e' =>
+        -- the same rule fails: validate reads the two spellings through `= ""` and `blen` only
+        have : validate (sanitisedCfg c) (some (sanitisedSpelling m)) = validate c (some m) := by
+          simp only [validate, sanitisedCfg, sanitisedSpelling, blen_sanitizeName, sanitizeName_eq_empty]
+          by_cases hr : c.reqNs = ""
+          · simp [hr, sanitizeName_idem, (sanitizeName_eq_empty "").2 rfl]
+            rfl
+          · have hr' : sanitizeName c.reqNs ≠ "" := hreq.2 hr
+            simp [hr, hr', sanitizeName_idem]
+            rfl
+        rw [h2, h1] at this
+        rw [this]
+
+/-- the placement of the sanitiser the source has NOW (regenerated) is a sound one, for the name … -/
+theorem protoNameFlow_sound : (NameFlow.ofTriple Generated.C16.protoNameFlow).sound = true := by decide
+/-- … and for the namespace -/
+theorem protoNsFlow_sound : (NameFlow.ofTriple Generated.C16.protoNsFlow).sound = true := by decide
+
+/-- hashOfName hashes the namespace (when not empty) followed by the name, as `convertF` does -/
+theorem hashOfNameSrc_expected : Generated.C16.hashOfNameSrc =
+    "rc.hashBuf.Reset() ; if m.Namespace != \"\" { _, _ = rc.hashBuf.WriteString(m.Namespace) } ; _, _ = rc.hashBuf.WriteString(m.Name) ; return xxhash.Sum64(rc.hashBuf.Bytes())" := rfl
+
+/-- non-vacuity: all three formats store the witness `cpu|load` of namespace `te|am` under one identity -/
+example :
+    let H : String → Nat := fun s => s.length * 1000 + (s.toList.map Char.toNat).sum
+    let mp : PMetric := ⟨"cpu|load", "te|am", 5, [some ⟨"host", "h1"⟩], [some ⟨"f", 1, .num 1⟩], none⟩
+    let fr : FRow := ⟨"cpu|load", "te|am", 5, [⟨"host", "h1"⟩], [⟨"f", 1, .num 1⟩], none⟩
+    (convertF .current .current true (insertionSort (less true)) H cfg0 (some mp)).toOption.map
+        (fun s => (s.ns, s.name, s.nameHash, s.hash)) =
+      (decodeTo ⟨cfg0, 256⟩ (insertionSort (less false)) H Dec.fresh fr).2.toOption.map
+        (fun s => (s.ns, s.name, s.nameHash, s.hash)) ∧
+    (convertF .current .current true (insertionSort (less true)) H cfg0 (some mp)).toOption.map
+        (fun s => (s.ns, s.name)) = some ("te_am", "cpu_load") := by
+  decide
+
+end identity
+
 /-! ## proved negations -/
 namespace Neg
 
@@ -1135,6 +1292,43 @@ theorem channel_not_found_error_overwritten :
     deliver (fun s => s == 2) [⟨1, 0, []⟩, ⟨2, 0, []⟩] = ([⟨2, 0, []⟩], false) ∧
     deliver (fun s => s == 1) [⟨1, 0, []⟩, ⟨2, 0, []⟩] = ([⟨1, 0, []⟩], true) := by
   constructor <;> rfl
+
+/-- seeded c16-21's placement — sanitise only where the string is written into the row, hash what
+validateMetric left (the raw spelling) — is NOT sound: `cpu|load` is stored under `cpu_load` with the hash of
+`cpu|load`, so the stored NameHash is not the hash of the stored spelling, and the same stored metric sent as
+`cpu_load` gets another identity. For every hash that tells the two spellings apart. -/
+def flowStoreOnly : C16Ident.NameFlow := ⟨false, true, false⟩
+def mPipe : PMetric := ⟨"cpu|load", "ns", 5, [], [some ⟨"f", 1, .num 1⟩], none⟩
+def mUnderscore : PMetric := ⟨"cpu_load", "ns", 5, [], [some ⟨"f", 1, .num 1⟩], none⟩
+theorem hash_of_unsanitised_spelling_splits_identity (H : String → Nat) (hH : H "nscpu|load" ≠ H "nscpu_load") :
+    flowStoreOnly.sound = false ∧
+    ∃ s₁ s₂,
+      C16Ident.convertF flowStoreOnly flowStoreOnly true (insertionSort (less true)) H cfg0 (some mPipe) = .ok s₁ ∧
+      C16Ident.convertF flowStoreOnly flowStoreOnly true (insertionSort (less true)) H cfg0 (some mUnderscore) = .ok s₂ ∧
+      s₁.name = "cpu_load" ∧ s₁.ns = s₂.ns ∧ s₁.name = s₂.name ∧ s₁.tags = s₂.tags ∧
+      s₁.nameHash ≠ H (s₁.ns ++ s₁.name) ∧ s₁.nameHash ≠ s₂.nameHash := by
+  have n1 : flowStoreOnly.stored mPipe.name = "cpu_load" := by decide
+  have n2 : flowStoreOnly.stored mUnderscore.name = "cpu_load" := by decide
+  have s1 : flowStoreOnly.stored (C16Ident.rawNs cfg0 mPipe) = "ns" := by decide
+  have s2 : flowStoreOnly.stored (C16Ident.rawNs cfg0 mUnderscore) = "ns" := by decide
+  have g1 : (flowStoreOnly.hashed (C16Ident.rawNs cfg0 mPipe) ++ flowStoreOnly.hashed mPipe.name : String) = "nscpu|load" := by
+    decide
+  have g2 : (flowStoreOnly.hashed (C16Ident.rawNs cfg0 mUnderscore) ++ flowStoreOnly.hashed mUnderscore.name : String) =
+      "nscpu_load" := by decide
+  have g3 : ("ns" ++ "cpu_load" : String) = "nscpu_load" := by decide
+  refine ⟨by decide, _, _, rfl, rfl, n1, ?_, ?_, rfl, ?_, ?_⟩
+  · show flowStoreOnly.stored (C16Ident.rawNs cfg0 mPipe) = flowStoreOnly.stored (C16Ident.rawNs cfg0 mUnderscore)
+    rw [s1, s2]
+  · show flowStoreOnly.stored mPipe.name = flowStoreOnly.stored mUnderscore.name
+    rw [n1, n2]
+  · show H (flowStoreOnly.hashed (C16Ident.rawNs cfg0 mPipe) ++ flowStoreOnly.hashed mPipe.name) ≠
+      H (flowStoreOnly.stored (C16Ident.rawNs cfg0 mPipe) ++ flowStoreOnly.stored mPipe.name)
+    rw [g1, s1, n1, g3]
+    exact hH
+  · show H (flowStoreOnly.hashed (C16Ident.rawNs cfg0 mPipe) ++ flowStoreOnly.hashed mPipe.name) ≠
+      H (flowStoreOnly.hashed (C16Ident.rawNs cfg0 mUnderscore) ++ flowStoreOnly.hashed mUnderscore.name)
+    rw [g1, g2]
+    exact hH
 
 /-- the two histogram rule sets differ: a histogram with exactly two buckets is rejected by validateMetric
 (`len(Values) <= 2`) and accepted by RowBuilder.AddCompoundFieldData (`len(values) < 2`) — outside
